@@ -258,8 +258,10 @@ func (m *blueGreenReleaseManager) doCanaryJump(c *RolloutContext) (jumped bool) 
 		bluegreenStatus.CurrentStepIndex = nextIndex
 		bluegreenStatus.NextStepIndex = util.NextBatchIndex(c.Rollout, nextIndex)
 		nextStep := c.Rollout.Spec.Strategy.BlueGreen.Steps[nextIndex-1]
-		// compare next step and current step to decide the state we should go
-		if reflect.DeepEqual(nextStep.Replicas, currentStep.Replicas) {
+		// compare next step and current step to decide the state we should go: the upgrade can only be skipped
+		// if the pods of the current step (the same replicas) have already been upgraded and reported ready
+		upgraded := currentStepStateBackup != v1beta1.CanaryStepStateInit && currentStepStateBackup != v1beta1.CanaryStepStateUpgrade
+		if reflect.DeepEqual(nextStep.Replicas, currentStep.Replicas) && upgraded {
 			bluegreenStatus.CurrentStepState = v1beta1.CanaryStepStateTrafficRouting
 		} else {
 			bluegreenStatus.CurrentStepState = v1beta1.CanaryStepStateInit
